@@ -158,6 +158,47 @@ pub fn run(run: &mut Run) -> PResult {
     }
     run.generator("accessors on 52 cards + blank", "exhaustive", Some(53), 53, 53, "13 accessors each");
     run.sample(json!({"card": "K♦", "word": hex(card::word(11, 1)), "prime": 37, "rank_number": 11, "suit_bit": "0x2000", "rank_bit": "1<<27"}));
+    // call-order independence: every ordered pair of inputs back to back
+    if !run.is_twin() {
+        let pairs: Vec<(CardRank, CardSuit)> = CardRank::iter().flat_map(|r| CardSuit::iter().map(move |s| (r, s))).collect();
+        let hit = engine::ordered_pairs(&pairs, &|a| { std::hint::black_box(CKCNumber::create(a.0, a.1)); }, &|b| construct_clause(b.0, b.1));
+        run.generator("all ordered pairs of rank/suit pairs through create, back to back", "exhaustive (histories of length 2)", Some(4900), 4900, 4830, "");
+        if let Some((a, b, m)) = hit {
+            return run.violation("C10.sequence", &format!("create {:?} ; create {:?}", pairs[a], pairs[b]), json!({"calls": [{"create": [format!("{:?}", pairs[a].0), format!("{:?}", pairs[a].1)]}, {"create": [format!("{:?}", pairs[b].0), format!("{:?}", pairs[b].1)]}]}), &format!("after create({:?}, {:?}): {}", pairs[a].0, pairs[a].1, m));
+        }
+        let mut words: Vec<u32> = card::DECK.to_vec();
+        words.push(0);
+        for c in card::DECK {
+            for m in 1..8u32 {
+                words.push(c | (m << 29));
+            }
+        }
+        // marked words read like their card (C20); here only the 53 unmarked words are *checked*, all 417 are predecessors
+        let items: Vec<(u32, bool)> = words.iter().map(|w| (*w, *w >> 29 == 0)).collect();
+        let hit = engine::ordered_pairs(
+            &items,
+            &|a| {
+                let w = a.0;
+                std::hint::black_box((w.get_card_rank(), w.get_card_suit(), w.get_rank_bit(), w.get_rank_prime(), w.get_suit_bit(), w.get_rank_char(), w.get_suit_char(), w.get_suit_letter(), ckc_rs::CardNumber::filter(w)));
+            },
+            &|b| {
+                if !b.1 {
+                    return Ok(());
+                }
+                accessor_clauses(b.0)?;
+                let f = ckc_rs::CardNumber::filter(b.0);
+                if f != b.0 {
+                    return Err(format!("filter({}) = {}", hex(b.0), hex(f)));
+                }
+                Ok(())
+            },
+        );
+        let n = items.len() as u64;
+        run.generator("all ordered pairs of card / blank / marked words through the accessors and the filter, back to back", "exhaustive (histories of length 2)", Some(n * n), n * n, n * n - n, "417 predecessor words x 53 checked words");
+        if let Some((a, b, m)) = hit {
+            return run.violation("C10.sequence", &format!("{} ; {}", hex(items[a].0), hex(items[b].0)), json!({"calls": [{"accessors": hex(items[a].0)}, {"accessors": hex(items[b].0)}]}), &format!("after the accessors were called on {}: {}", card::render(items[a].0), m));
+        }
+    }
     // filter over all words
     filter_scan(run, "C10.filter")?;
     let near = hamming2().iter().filter(|w| !card::is_card(**w)).count() as u64;
@@ -202,6 +243,32 @@ pub fn check_case(clause: &str, case: &Value) -> Result<(), String> {
             Ok(())
         }
         "C10.accessor" => accessor_clauses(engine::parse_word(&case["word"])?),
+        "C10.sequence" => {
+            for (i, c) in case["calls"].as_array().ok_or("calls")?.iter().enumerate() {
+                let r = if let Some(p) = c.get("create") {
+                    let (rn, sn) = (p[0].as_str().unwrap_or(""), p[1].as_str().unwrap_or(""));
+                    let mut res = Err("pair not found".to_string());
+                    for r in CardRank::iter() {
+                        for s in CardSuit::iter() {
+                            if format!("{:?}", r) == rn && format!("{:?}", s) == sn {
+                                res = construct_clause(r, s);
+                            }
+                        }
+                    }
+                    res
+                } else {
+                    let w = engine::parse_word(&c["accessors"])?;
+                    if w >> 29 == 0 {
+                        accessor_clauses(w)
+                    } else {
+                        std::hint::black_box((w.get_card_rank(), w.get_card_suit(), w.get_suit_bit(), w.get_rank_bit()));
+                        Ok(())
+                    }
+                };
+                r.map_err(|m| format!("call {}: {}", i + 1, m))?;
+            }
+            Ok(())
+        }
         "C10.filter" => super::c04::check_case("C04.recogniser", case),
         _ => Err(format!("unknown clause {}", clause)),
     }
